@@ -348,6 +348,21 @@ Fixpoint exec (c : code) (v : vm) : outcome * vm :=
   | NDisplay => (ONormal, v)
   end.
 
+(* A generator's own vm: call_generator pushes ONE frame WITHOUT an execution barrier on a spawned vm (arguments
+   and captures in its registers); GeneratorIterator drives it with continue_running, which does nothing once the
+   call stack is empty ("finished").  `c` is the bytecode run by this resume, up to its yield / return / error. *)
+Definition generator_vm (required : Z) : vm := new_frame (push_frame fresh 0 false) required.
+
+Definition continue_running (c : code) (gv : vm) : hres * vm :=
+  match stack gv with
+  | [] => (HOk, gv)                                   (* ReturnOrYield::Return(Null): nothing is executed *)
+  | _ => match exec c gv with
+         | (ONormal, v') => (HOk, v')                 (* yielded (Return additionally pops the frame) *)
+         | (OEscape e, v') | (OUnwind e, v') => (HErr e, v')
+         | (OPanic, v') => (HPanic, v')
+         end
+  end.
+
 (* host operations on a runtime instance *)
 Inductive hostop :=
 | HRun (required : Z) (c : code)                 (* compile_and_run of a script that compiles *)
